@@ -124,23 +124,29 @@ def r15_1(ctx):
         ev = prog.macro_value(err)
         ctx.require(ev is not None, 'error constant %s not evaluable' % err)
         hit = None
-        for n in f.all_nodes():
-            if n['k'] not in ('if',):
-                continue
-            c = f.kid(n, 0)
-            if c is None:
-                continue
-            txt = f.show_sym(c)
-            if text not in txt:
-                continue
-            # the error is raised in the taken arm, or (result-accumulating
-            # style) assigned there and propagated by the code that follows
-            arms = f.kids(n)[1:3]
-            if any(arm is not None and _err_in(f, arm, ev) for arm in arms):
-                hit = n
+        hit_fn = f
+        # the function itself, or a static helper the test was extracted into (whose
+        # error the function propagates: helpers of the family are only reachable from it)
+        for h in cu.family(prog, f):
+            for n in h.all_nodes():
+                if n['k'] not in ('if',):
+                    continue
+                c = h.kid(n, 0)
+                if c is None:
+                    continue
+                txt = h.show_sym(c)
+                if text not in txt:
+                    continue
+                # the error is raised in the taken arm, or (result-accumulating
+                # style) assigned there and propagated by the code that follows
+                arms = h.kids(n)[1:3]
+                if any(arm is not None and _err_in(h, arm, ev) for arm in arms):
+                    hit, hit_fn = n, h
+                    break
+            if hit is not None:
                 break
         ctx.ob('R15.1', '%s:%s->%s' % (fname, text, err), hit is not None,
-               f.loc(hit) if hit is not None else '%s:%s' % (f.file, f.line),
+               hit_fn.loc(hit) if hit is not None else '%s:%s' % (f.file, f.line),
                'a branch on %s raises %s' % (text, err) if hit is not None else
                'no branch whose condition mentions %s raises %s in %s: exceeding the limit no '
                'longer yields its documented error' % (text, err, fname))
